@@ -248,7 +248,7 @@ def run(tier, seed):
                              "correspondence": "print/Print.v comment_map_of vs tokenize(.., Some(map))"})
     # ---- the parser model (parse/Parse.v, extracted) against the real parser: accept/reject and the position-free AST on the
     # laid-out texts; and the executable conclusions of the round-trip theorems on the generated programs
-    npar = nrt = 0
+    npar = nrt = in_thm = 0
     if okm:
         import struct
 
@@ -279,14 +279,17 @@ def run(tier, seed):
         rt = C.model("parse_rt", ["(2 (%s))" % " ".join(P.stmt_sexp(x) for x in p) for p, _ in model_progs])
         for (p, t), flags in zip(model_progs, rt):
             f = flags.split()
-            if len(f) != 6:
+            if len(f) not in (6, 8):
                 continue
             nrt += 1
-            if f[0] == "1" and not (f[2] == f[3] == f[4] == "1"):
+            if len(f) == 8:
+                in_thm += f[0] == "1" and f[6] == "1"
+            if f[0] == "1" and (len(f) == 6 or f[6] == "1") and not (f[2] == f[3] == f[4] == "1" and (len(f) == 6 or f[7] == "1")):
                 corr.append({"source": t, "why": "a program inside the round-trip theorems' side condition (prog_ok) does not round-trip in the "
                                                  "extracted model: tokens=%s lex-of-print=%s print-lex-parse=%s" % (f[2], f[3], f[4])})
     cov["model_parses_compared"] = npar
     cov["model_roundtrips_checked"] = nrt
+    cov["generated_programs_inside_the_roundtrip_theorems"] = in_thm
     cov["model_printer_outputs_compared"] = npp
     cov["model_comment_maps_compared"] = ncm
     cov["evaluations"] = len(cases)
